@@ -30,7 +30,7 @@ PROPS = {
              assumptions=BASE_ASSUME + ["signature verification and authz dispatch are modelled"]),
  "C04": dict(jobs=[CORPUS, ante(40, 600)], rule=NONTRIVIAL + "; transactions are signed and delivered through the real DeliverTx",
              assumptions=BASE_ASSUME + ["governance execution is outside the statement; no other message-executing module is wired into the app (extractor checks the module list)"]),
- "C05": dict(jobs=[CORPUS, chain("oracle", 50, 800), chain("mixed", 10, 200)], rule=NONTRIVIAL, assumptions=BASE_ASSUME),
+ "C05": dict(jobs=[CORPUS, chain("oracle", 50, 800), chain("mixed", 10, 200), chain("oracle", 15, 300, cr=0)], rule=NONTRIVIAL, assumptions=BASE_ASSUME),
  "C06": dict(jobs=[CORPUS, chain("malformed", 40, 600), chain("mixed", 15, 300), ante(10, 150), pure(1500, 30000)], rule=NONTRIVIAL,
              assumptions=BASE_ASSUME + ["panics inside dependencies on inputs satisfying their documented preconditions are outside the model"]),
  "C07": dict(jobs=[CORPUS, chain("settle", 30, 400, twin=True), chain("oracle", 25, 400, twin=True), ante(6, 100, twin=True)],
@@ -47,9 +47,9 @@ PROPS = {
  "C13": dict(jobs=[CORPUS, chain("isolate", 25, 400, isolate=True), chain("fault", 10, 200)],
              rule=NONTRIVIAL + "; every history is re-executed once per tenant with the other tenants' activity removed and the tenant's projection compared",
              assumptions=BASE_ASSUME + ["treasury addresses of distinct tenants are assumed distinct (truncated SHA-256)"]),
- "C14": dict(jobs=[CORPUS, chain("oracle", 40, 600), ante(15, 250)], rule=NONTRIVIAL + "; the ante engine evaluates every invariant registered with the crisis keeper after each real block",
+ "C14": dict(jobs=[CORPUS, chain("oracle", 40, 600), ante(15, 250), chain("oracle", 25, 400, cr=0)], rule=NONTRIVIAL + "; the ante engine evaluates every invariant registered with the crisis keeper after each real block",
              assumptions=BASE_ASSUME + ["the SDK modules' own invariants are evaluated at run time, not modelled"]),
- "C15": dict(jobs=[CORPUS, chain("oracle", 60, 900), chain("mixed", 10, 200)], rule=NONTRIVIAL, assumptions=BASE_ASSUME),
+ "C15": dict(jobs=[CORPUS, chain("oracle", 60, 900), chain("mixed", 10, 200), chain("oracle", 15, 300, cr=0)], rule=NONTRIVIAL, assumptions=BASE_ASSUME),
  "C16": dict(jobs=[CORPUS, ante(40, 600), pure(800, 20000)], rule=NONTRIVIAL, assumptions=BASE_ASSUME + ["sdk.NormalizeDecCoin is the identity for denominations without a registered unit"]),
  "C17": dict(jobs=[CORPUS, chain("genesis", 40, 600)], rule=NONTRIVIAL + "; every history ends with an export -> JSON -> import -> export round trip",
              assumptions=BASE_ASSUME + ["JSON and bech32 codecs are exercised, not modelled"]),
